@@ -180,6 +180,21 @@ def search(run, corr, deep):
             if why:
                 fails.append((k, m, l, a, why))
         corr.distribution["oracle: round trips judged" + (" (deep)" if dp else "")] = len(msgs)
+        # "every message the toolkit ACCEPTS as valid": also take the boundary lattice around every range
+        # (values the protocol excludes included) and judge whatever the real validate()/gen_msg() lets through
+        extra = [("tx", m, l) for m in T.tx_lattice() for l in (0, 1)] + \
+                [("rx", m, l) for m in T.rx_lattice(run.rng, pairs=run.scale(200, 2000)) for l in (0, 1)]
+        extra = [(k, m, l) for (k, m, l) in extra if not (k == "rx" and m.burst is not None and 0x80 in bytes(m.burst))]
+        ea = vf.run_lines(T.HARNESS, ["trxd.%s.rt %d %s" % (k, l, m.line()) for k, m, l in extra])
+        nacc = 0
+        for (k, m, l), a in zip(extra, ea):
+            if not a.startswith("ok"):
+                continue            # refused by the real encoder: not a message the toolkit accepts
+            nacc += 1
+            why = judge(k, m, l, a)
+            if why:
+                fails.append((k, m, l, a, why + " (message accepted by the real validate())"))
+        corr.distribution["oracle: boundary-lattice messages accepted by the real validate() and judged" + (" (deep)" if dp else "")] = nacc
         # legacy: v0 decodes the same with and without padding
         v0 = [(k, m) for k, m, l in msgs if m.ver == 0][: run.scale(3000, 60000)]
         lreq = []
